@@ -96,6 +96,9 @@ func universeOK(fanout int, u []string) bool {
 	if d[0][0] == d[2][0] || d[0][0] == d[4][0] || d[2][0] == d[4][0] || d[0][0] >= 16 {
 		return false
 	}
+	if fanout >= 512 && d[2][0] != d[0][0]+256 {
+		return false
+	}
 	return shareLen(d[0], d[1]) == capShare(b, 1) && shareLen(d[2], d[3]) == capShare(b, 2) && shareLen(d[4], d[5]) == capShare(b, 3)
 }
 
@@ -132,7 +135,13 @@ func mineUniverse(fanout int, style string) []string {
 	u[0] = find(func(d []int) bool { return d[0] < 16 })
 	d0 := digitsOf(u[0], b)
 	u[1] = find(share(d0, capShare(1)))
-	u[2] = find(func(d []int) bool { return d[0] != d0[0] })
+	// at fanouts above 256 the second group sits in the bucket 256 above the first one (same low byte)
+	u[2] = find(func(d []int) bool {
+		if fanout >= 512 {
+			return d[0] == d0[0]+256
+		}
+		return d[0] != d0[0]
+	})
 	d2 := digitsOf(u[2], b)
 	u[3] = find(share(d2, capShare(2)))
 	// link order variants (one per name style): whether the value links of names 7 / 8 sort before or after
@@ -237,7 +246,8 @@ func fullDirScript(nuniv int, hows []string) [][]any {
 			sc = append(sc, []any{"lookup", id, h})
 		}
 	}
-	sc = append(sc, []any{"iter", "map"}, []any{"iter", "native"}, []any{"length"})
+	// Length is asked right after an iteration that ended with one read past the end, and again later
+	sc = append(sc, []any{"iter", "map"}, []any{"length"}, []any{"iter", "native"}, []any{"length"})
 	return sc
 }
 
@@ -426,7 +436,7 @@ func init() {
 							}
 							for _, bld := range []string{"sharded", "boxo"} {
 								dc := &DirCase{Fam: "dir", ID: fmt.Sprintf("%s-%d-%s-%v-m%d-%s", *what, f, style, s, m, bld), Builder: bld, Fanout: f,
-									Universe: u, Entries: s, Links: links(s), Open: "reify", Mode: "fault", NotFound: m%2 == 0}
+									Universe: u, Entries: s, Links: links(s), Open: "reify", Mode: "fault", NotFound: m%3 == 0, Timeout: m%3 == 1}
 								if bld == "boxo" && len(s) == 0 {
 									continue
 								}
